@@ -180,6 +180,13 @@ impl RFsmExpressionDatamodel {
 
     pub fn add_internal_fsm_functions(&mut self, fsm: &mut Fsm) {
         let mut guard = self.global_data.lock().unwrap();
+        // "In" is bound to the state names of this session: the action table handed over by the
+        // parent session or the application is shared (Arc), so it is copied before "In" is added.
+        let mut own_actions = ActionWrapper::new();
+        for (name, action) in guard.actions.get_map_copy() {
+            own_actions.add_action(name.as_str(), action);
+        }
+        guard.actions = own_actions;
         Self::add_internal_functions_to_wrapper(&mut guard.actions);
         guard.actions.add_action("In", Box::new(InAction::new(fsm)));
     }
